@@ -28,12 +28,27 @@ class Universe:
         self.dead_regions: set[int] = set()
         self.dead_vals: set[int] = set()
         self._tokens: dict[Any, int] = {}
+        self._by_text: dict[str, list] = {}
+        self._by_num: list = []
 
     def token(self, x: Any) -> int:
         """Intern an attribute / type (by its own ==/hash) as a small integer."""
         t = self._tokens.get(x)
         if t is None:
-            t = self._tokens[x] = len(self._tokens) + 1
+            # == is the relation; hash may disagree with it (NaN payloads hash by identity: C08, not ours), so a miss is
+            # re-checked by == among the values that print the same
+            try:
+                s = str(x)
+            except Exception:  # noqa: BLE001
+                s = None
+            for y, ty in self._by_text.get(s, ()) if s is not None else ():
+                if y == x:
+                    self._tokens[x] = ty
+                    return ty
+            t = self._tokens[x] = len(self._by_num) + 1
+            self._by_num.append(x)
+            if s is not None:
+                self._by_text.setdefault(s, []).append((x, t))
         return t
 
     def dict_token(self, d) -> list:
@@ -171,7 +186,24 @@ class Universe:
                 changed = True
 
     # ---- projection
-    def project(self, extras: bool = False) -> dict[str, Any]:
+    @staticmethod
+    def _normal_dicts(o):
+        """C04's equivalence: an inherent attribute given in the attribute dictionary is the property it denotes,
+        a property equal to its declared default is like an absent one."""
+        attrs, props = dict(o.attributes), dict(o.properties)
+        try:
+            op_def = type(o).get_irdl_definition()
+        except Exception:  # noqa: BLE001  (unregistered / non-IRDL op)
+            return attrs, props
+        for name, pdef in op_def.properties.items():
+            if name in attrs and name not in props:
+                props[name] = attrs.pop(name)
+            dv = getattr(pdef, "default_value", None)
+            if dv is not None and name in props and props[name] == dv:
+                del props[name]
+        return attrs, props
+
+    def project(self, extras: bool = False, normalize: bool = False) -> dict[str, Any]:
         """extras=True adds what structural equivalence looks at: op name, attribute / property
         dictionaries and value types, interned as tokens."""
         self.discover()
@@ -182,8 +214,10 @@ class Universe:
                 ops.append({"alive": 0, "parent": 0, "operands": [], "succs": [], "results": [], "regions": []}
                            | ({"name": "", "attrs": [], "props": []} if extras else {}))
                 continue
+            if extras:
+                o_attrs, o_props = self._normal_dicts(o) if normalize else (o.attributes, o.properties)
             ops.append(({"name": o.name if o.name != "builtin.unregistered" else "unregistered:" + str(getattr(o, "op_name", "")),
-                         "attrs": self.dict_token(o.attributes), "props": self.dict_token(o.properties)} if extras else {}) | {
+                         "attrs": self.dict_token(o_attrs), "props": self.dict_token(o_props)} if extras else {}) | {
                 "alive": 1,
                 "parent": self.block(o.parent),
                 "operands": [self.val(v) for v in o._operands],  # pyright: ignore
